@@ -503,6 +503,19 @@ def digit_accumulation(ctx, crate):
                         return ("stop", "tail")
                     if P + "parse_long_integer" in names:
                         reached["long"] = True
+                        # what is handed on must stand for the digits read so far: the significand is the value of the
+                        # first (consumed - exponent) digits, the exponent counts the digits read but left out of it
+                        g = crate.fn(P + "parse_long_integer")
+                        d = [S._deref(a, path) for a in args]
+                        sig = [d[i - 1] for i in range(1, (g.arg_count if g else 0) + 1) if g.local_ty(i) == "u64" and i - 1 < len(d)]
+                        exp = [d[i - 1] for i in range(1, (g.arg_count if g else 0) + 1) if g.local_ty(i) == "i32" and i - 1 < len(d)]
+                        consumed = sum(1 for e in path.events if e[0] == "call" and (
+                            lex.read_kind(e[1]) == "next" or any(x in e[1] for x in lex.DISCARDS)))
+                        if len(sig) == 1 and len(exp) == 1 and isinstance(sig[0], int) and isinstance(exp[0], int):
+                            m = consumed - exp[0]
+                            reached["handed"] = (sig[0], exp[0], consumed, m)
+                        else:
+                            reached["handed"] = None
                         return ("stop", "long")
                     return None
 
@@ -514,7 +527,11 @@ def digit_accumulation(ctx, crate):
                         if p.end == "stop:tail":
                             outs.add(("tail", reached.get("tail")))
                         elif p.end == "stop:long":
-                            outs.add(("long", None))
+                            h = reached.get("handed")
+                            if h is not None and not (0 <= h[3] <= len(digits) and h[0] == int("0" + digits[:h[3]], radix)):
+                                outs.add(("long: significand %d with exponent %d after %d digit(s) read" % (h[0], h[1], h[2]), None))
+                            else:
+                                outs.add(("long", None))
                         elif p.end == "panic":
                             outs.add(("panic", None))
                         elif p.end == "return":
